@@ -8,7 +8,7 @@ use white_whale_std::vault_network::vault::{CallbackMsg, ExecuteMsg};
 
 use crate::{
     error::VaultError,
-    state::{CONFIG, LOAN_COUNTER},
+    state::{CONFIG, LOAN_COUNTER, NESTED_LOAN_FEES},
 };
 
 pub fn flash_loan(
@@ -29,6 +29,13 @@ pub fn flash_loan(
         Ok(c.checked_add(1)
             .ok_or_else(|| OverflowError::new(cosmwasm_std::OverflowOperation::Add, c, 1))?)
     })?;
+
+    // open the fee accumulator for the loans that may be taken inside this one
+    let mut nested_loan_fees = NESTED_LOAN_FEES
+        .may_load(deps.storage)?
+        .unwrap_or_default();
+    nested_loan_fees.push(Uint128::zero());
+    NESTED_LOAN_FEES.save(deps.storage, &nested_loan_fees)?;
 
     // store current balance for after trade profit check
     let old_balance = match config.asset_info.clone() {
